@@ -299,6 +299,10 @@ class Ctx:
         self._divcache: Dict[Any, Any] = {}
         self.sigf: Any = None
         self.failure_counts: Dict[str, int] = {}
+        self.dump_dir: Optional[str] = None  # second-solver cross check: obligations written as SMT-LIB2
+        self.dump_limit = 0
+        self.n_dumped = 0
+        self.dump_tag = ""
         self.max_failures = 50
         self.sample_paths: List[Any] = []
 
@@ -506,6 +510,8 @@ class Ctx:
             self.solver.push()
             try:
                 self.solver.add(z3.Not(e))
+                if self.dump_dir is not None and self.n_dumped < self.dump_limit:
+                    self._dump(label)
                 r = self._check()
                 if r == "unsat":
                     return True
@@ -552,6 +558,16 @@ class Ctx:
                     info={k: _show(v) for k, v in info.items()},
                 ),
             )
+
+    def _dump(self, label: str) -> None:
+        import os
+
+        self.n_dumped += 1
+        path = os.path.join(self.dump_dir or ".", f"{self.dump_tag}_{self.n_dumped:04d}.smt2")
+        with open(path, "w", encoding="utf-8") as fh:
+            fh.write(f"; obligation {label}\n(set-logic ALL)\n")
+            fh.write(self.solver.sexpr())
+            fh.write("\n(check-sat)\n")
 
     def model_value(self, x: Any, model: Any) -> Any:
         return model.eval(_z(x), model_completion=True)
@@ -611,6 +627,9 @@ def explore(
     max_paths: int = 200000,
     budget_s: Optional[float] = None,
     sigf: Any = None,
+    dump_dir: Optional[str] = None,
+    dump_limit: int = 0,
+    dump_tag: str = "",
 ) -> Dict[str, Any]:
     """Explore every feasible path of harness(ctx, case).  Returns a plain dict.
     Failures are kept once per signature (sigf), so a recurring known finding does not end the exploration."""
@@ -618,6 +637,7 @@ def explore(
     c = Ctx("sym", max_paths=max_paths)
     c.case = case
     c.sigf = sigf
+    c.dump_dir, c.dump_limit, c.dump_tag = dump_dir, dump_limit, dump_tag
     t0 = time.time()
     prev = _CTX
     _CTX = c
